@@ -570,6 +570,29 @@ theorem planLoop_mem (T : Tables) (o : Opts) (vmap : List VEntry) :
           · obtain ⟨es', hes', rs0', h0', hr'⟩ := ih rs1 h1 r hr
             exact ⟨es', List.mem_cons_of_mem _ hes', rs0', h0', hr'⟩
 
+/-- … and conversely the loop leaves no root out: with at least one of the two flags on, every root has an accepted
+    plan and all of it is in the loop's output -/
+theorem planLoop_complete (T : Tables) (o : Opts) (vmap : List VEntry) (hfl : (o.renameFiles || o.renameDirs) = true) :
+    ∀ (ess : List (List Entry)) (rs : List Ren), planLoop T o vmap ess = .ok rs →
+      ∀ es ∈ ess, ∃ rs0, planWithSearch T o vmap es = .ok rs0 ∧ ∀ r ∈ rs0, r ∈ rs := by
+  intro ess
+  induction ess with
+  | nil => intro rs _ es hes; cases hes
+  | cons e0 rest ih =>
+    intro rs h es hes
+    simp only [planLoop, hfl, Bool.not_true, Bool.false_eq_true, if_false] at h
+    split at h
+    · cases h
+    · rename_i rs0 h0
+      split at h
+      · cases h
+      · rename_i rs1 h1
+        cases h
+        rcases List.mem_cons.1 hes with rfl | hes'
+        · exact ⟨rs0, h0, fun r hr => List.mem_append_left _ hr⟩
+        · obtain ⟨rs0', h0', hsub⟩ := ih rs1 h1 es hes'
+          exact ⟨rs0', h0', fun r hr => List.mem_append_right _ (hsub r hr)⟩
+
 theorem dedupRens_sublist : ∀ (rs : List Ren), List.Sublist (dedupRens rs) rs := by
   intro rs
   induction rs with
@@ -687,7 +710,7 @@ theorem planRenames_mem (T : Tables) (o : Opts) (vmap : List VEntry) (t : Tree) 
     rs.Pairwise (fun a b => a.path ≠ b.path) ∧
     ∀ r ∈ rs, (∃ root ∈ roots, ∃ rs0, planWithSearch T o vmap (entriesOf t root) = .ok rs0 ∧ r ∈ rs0) ∧
       (b = false → ∀ root ∈ roots, r.path ≠ root) := by
-  unfold planRenames at h
+  unfold planRenames planRenamesWith at h
   split at h
   · cases h
   · rename_i rs1 h1
